@@ -52,6 +52,7 @@ type hpPeer struct {
 	stalled bool
 	seen    atomic.Int64 // request frames read so far
 	wmu     sync.Mutex
+	replies map[uint64]int // response frames read, by id (answers to the peer's own requests)
 }
 
 func (p *hpPeer) readLoop() {
@@ -71,6 +72,10 @@ func (p *hpPeer) readLoop() {
 					ProtocolVersion: version.RuntimeHostProtocol, RuntimeVersion: version.Version{Major: 1}}}})
 			}
 			p.seen.Add(1)
+		} else if m.MessageType == protocol.MessageResponse {
+			p.mu.Lock()
+			p.replies[m.ID]++
+			p.mu.Unlock()
 		}
 	}
 }
@@ -98,7 +103,8 @@ type hpOutcome struct {
 func hpRun(sc *hpScript, settle time.Duration) (out hpOutcome) {
 	out.Script = sc.Script
 	a, b := net.Pipe()
-	peer := &hpPeer{conn: b, codec: cbor.NewMessageCodec(b, "verif-peer")}
+	peer := &hpPeer{conn: b, codec: cbor.NewMessageCodec(b, "verif-peer"), replies: map[uint64]int{}}
+	var preqs []uint64
 	peer.reading = sync.NewCond(&peer.mu)
 	go peer.readLoop()
 	defer b.Close()
@@ -166,6 +172,17 @@ func hpRun(sc *hpScript, settle time.Duration) (out hpOutcome) {
 			if werr := peer.write(&protocol.Message{ID: st.ID, MessageType: protocol.MessageResponse, Body: protocol.Body{Empty: &protocol.Empty{}}}); werr != nil && !closing {
 				out.Problem = "peer could not deliver a frame: " + werr.Error()
 			}
+		case "preq":
+			// a request of the runtime to the host (ids far from the host's own): well-formed, or without any body field
+			id := 9000 + st.ID
+			body := protocol.Body{HostLocalStorageGetRequest: &protocol.HostLocalStorageGetRequest{Key: []byte("k")}}
+			if st.ID%2 == 0 {
+				body = protocol.Body{}
+			}
+			preqs = append(preqs, id)
+			if werr := peer.write(&protocol.Message{ID: id, MessageType: protocol.MessageRequest, Body: body}); werr != nil && !closing {
+				out.Problem = "peer could not deliver a request frame: " + werr.Error()
+			}
 		case "cancel":
 			if rec := calls[st.ID]; rec != nil {
 				rec.cancel()
@@ -194,6 +211,13 @@ func hpRun(sc *hpScript, settle time.Duration) (out hpOutcome) {
 	case <-time.After(3 * time.Second):
 		out.Problem = "hang: Close() did not return within 3s"
 	}
+	peer.mu.Lock()
+	for _, id := range preqs {
+		if n := peer.replies[id]; n > 1 && out.Problem == "" {
+			out.Problem = fmt.Sprintf("reply: %d responses to one request of the runtime", n)
+		}
+	}
+	peer.mu.Unlock()
 	for _, id := range order {
 		select {
 		case r := <-calls[id].done:
@@ -286,6 +310,7 @@ func protoReplay(args []string) int {
 	for i := 0; i < *random; i++ {
 		var s hpScript
 		ncall := uint64(0)
+		npreq := uint64(0)
 		for k := 0; k < 6+rng.Intn(14); k++ {
 			switch x := rng.Intn(10); {
 			case x < 2 && ncall < 4:
@@ -297,6 +322,9 @@ func protoReplay(args []string) int {
 				s.Script = append(s.Script, hpStep{"cancel", 1 + uint64(rng.Intn(int(ncall)))})
 			case x == 8:
 				s.Script = append(s.Script, hpStep{[]string{"stall", "resume"}[rng.Intn(2)], 0})
+			case x == 9:
+				npreq++
+				s.Script = append(s.Script, hpStep{"preq", npreq})
 			}
 		}
 		s.Script = append(s.Script, hpStep{"close", 0})
